@@ -104,6 +104,51 @@ def _check_timestamps(fields, values):
     return None
 
 
+def c15_ts_collision(ftype="string", fname="ts"):
+    from flow.record import RecordDescriptor
+    from flow.record.base import iter_timestamped_records
+
+    D = RecordDescriptor("c15/ts", [(ftype, fname), ("datetime", "created")])
+    own = datetime.datetime(2001, 1, 1, tzinfo=UTC) if ftype == "datetime" else "own text"
+    created = datetime.datetime(2002, 2, 2, tzinfo=UTC)
+    rec = D(**{fname: own, "created": created})
+    out = list(iter_timestamped_records(rec))
+    exp = [o for o in out if o.ts_description == "created" or o.ts == created]
+    got = [getattr(o, fname) for o in exp]
+    ok = bool(got) and all(v == own for v in got)
+    return {"violates": not ok, "detail": None if ok else f"the expansion for 'created' holds {fname}={got!r}, the original record holds {own!r}"}
+
+
+def c15_grouped_replace(named=None):
+    from flow.record import GroupedRecord, RecordDescriptor
+
+    named = dict(named or {})
+    A = RecordDescriptor("c15/ma", [("string", "x"), ("varint", "n")])
+    B = RecordDescriptor("c15/mb", [("string", "x"), ("string", "y")])
+    a, b = A(x="ax", n=7, _source="sa"), B(x="bx", y="by", _source="sb")
+    g = GroupedRecord("c15/grp", [a, b])
+    before = (_obs(a), _obs(b))
+    g2 = g._replace(**named)
+    if (_obs(a), _obs(b)) != before:
+        return {"violates": True, "detail": "the members of the original group were modified"}
+    want = [{"x": "ax", "n": 7, "_source": "sa"}, {"x": "bx", "y": "by", "_source": "sb"}]
+    for k, v in named.items():
+        next(m for m in want if k in m)[k] = v
+    got = [{k: getattr(m, k) for k in w} for m, w in zip(g2.records, want)]
+    ok = got == want
+    return {"violates": not ok, "detail": None if ok else f"_replace({named}): the members hold {got}, expected {want}"}
+
+
+def c15_grouped_collision(fname="name"):
+    from flow.record import GroupedRecord, RecordDescriptor
+
+    A = RecordDescriptor("c15/ma", [("string", fname), ("string", "x")])
+    g = GroupedRecord("c15/grp", [A(**{fname: "member value", "x": "ax"})])
+    got = (getattr(g, fname), g._asdict().get(fname))
+    ok = got == ("member value", "member value")
+    return {"violates": not ok, "detail": None if ok else f"the group answers {fname}={got[0]!r} / _asdict()[{fname!r}]={got[1]!r}, the member holds 'member value'"}
+
+
 def c15_timestamps(fields=None):
     fields = fields or [["datetime", "a"], ["datetime", "ts"]]
     values = {}
@@ -263,4 +308,4 @@ def c15_sweep(seed=0, n=300):
     return {"violates": False, "cases": cases}
 
 
-CALLS = {"c15_rewrite_history": c15_rewrite_history, "c15_extend": c15_extend, "c15_timestamps": c15_timestamps, "c15_grouped": c15_grouped, "c15_rewrite": c15_rewrite, "c15_sweep": c15_sweep}
+CALLS = {"c15_rewrite_history": c15_rewrite_history, "c15_extend": c15_extend, "c15_timestamps": c15_timestamps, "c15_grouped_replace": c15_grouped_replace, "c15_grouped_collision": c15_grouped_collision, "c15_ts_collision": c15_ts_collision, "c15_grouped": c15_grouped, "c15_rewrite": c15_rewrite, "c15_sweep": c15_sweep}
